@@ -335,9 +335,14 @@ impl<'a, 'b> GeneratorState<'a> {
                 )
             }
             Operation::Gt => {
-                self.generate_condition_ex(&f, &op, &ExprType::Immediate(0), pos, false, label)?;
                 let ifstart_label = format!(".ifstart{}", self.local_label_counter_if);
                 self.local_label_counter_if += 1;
+                if compute_subtraction && self.carry_flag_ok && f == ExprType::A(false) {
+                    // Unsigned operands: after a borrow the left one is the lower one, even
+                    // when the high byte of the difference is zero
+                    self.asm(BCC, &ExprType::Label(ifstart_label.clone()), 0, false)?;
+                }
+                self.generate_condition_ex(&f, &op, &ExprType::Immediate(0), pos, false, label)?;
                 self.generate_condition_ex(
                     &f,
                     &Operation::Eq,
